@@ -422,7 +422,10 @@ pub fn increment_last<O: Offset>(vec: &mut [O], inc: usize) -> Result<()> {
     let Some(last) = vec.last_mut() else {
         fail!("Invalid offset array: expected at least a single element")
     };
-    *last = *last + O::try_form_usize(inc)?;
+    let Some(incremented) = last.checked_add(O::try_form_usize(inc)?) else {
+        fail!("Invalid offset array: the offset type cannot represent the number of elements");
+    };
+    *last = incremented;
     Ok(())
 }
 
